@@ -42,6 +42,7 @@ def _views_sym(conn):
 def workflow(cases=None):
     """Returns a list of mismatch descriptions (empty when conformant)."""
     problems = []
+    notes = []
     n_stmt = 0
     for case in (cases or CASES):
         rec = synth.planted_record(**case['rec'])
@@ -49,19 +50,30 @@ def workflow(cases=None):
         with pipeline.RealRun(texts) as rr:
             errs = [rr.load(), rr.classify(*case['thr']), rr.zeta_grid(case['grid']), rr.set_curvature(F(3, 2)),
                     rr.rise(), rr.recession()]
-            if any(e is not None for e in errs):
-                problems.append('%s: real workflow failed: %r' % (case['name'], [repr(e) for e in errs if e is not None][:2]))
-                continue
-            real = rr.dump()
-            vreal = _views_real(rr)
+            real_fail = next((type(e).__name__ for e in errs if e is not None), None)
+            real = rr.dump() if real_fail is None else None
+            vreal = _views_real(rr) if real_fail is None else None
+        sym_fail = None
         try:
             with symx.single_path():
                 conn = pipeline.sym_workflow(texts, case['thr'][0], case['thr'][1], case['grid'], curvature=F(3, 2))
                 sym = pipeline.sym_dump(conn)
                 vsym = _views_sym(conn)
                 n_stmt += len(conn.db.log)
-        except BaseException as e:
-            problems.append('%s: instrumented workflow failed: %s: %s' % (case['name'], type(e).__name__, str(e)[:300]))
+        except symx.ShimGap as e:
+            problems.append('%s: instrumented workflow hit a shim gap: %s' % (case['name'], str(e)[:300]))
+            continue
+        except Exception as e:
+            sym_fail = type(e).__name__
+        if real_fail or sym_fail:
+            # the repository code itself fails on this dataset (e.g. a seeded defect): the two
+            # backends must at least fail alike; nothing further can be compared
+            if real_fail != sym_fail:
+                problems.append('%s: real workflow %s, instrumented workflow %s' % (
+                    case['name'], 'raised ' + real_fail if real_fail else 'completed',
+                    'raised ' + sym_fail if sym_fail else 'completed'))
+            else:
+                notes.append('%s: both backends raise %s' % (case['name'], real_fail))
             continue
         for d in pipeline.compare_dumps(real, sym)[:5]:
             problems.append('%s: table %s' % (case['name'], d))
